@@ -711,11 +711,13 @@ class Model:
                 # blocking_pair_3b
                 if (p_undersubscribed and not l_undersubscribed and 
                     ((not assigned_pair_i == None and assigned_pair_i.lecturer_index == pair.lecturer_index) or
-                        pair.rank_lecturer < worst_rank_lecturers[pair.lecturer_index])):
+                        (not worst_rank_lecturers[pair.lecturer_index] == None and
+                        pair.rank_lecturer < worst_rank_lecturers[pair.lecturer_index]))):
                     blocking_pair_3b = True
 
                 # blocking_pair_3c
                 if (not p_undersubscribed and 
+                    not worst_rank_projects[pair.project_index] == None and
                     pair.rank_lecturer < worst_rank_projects[pair.project_index]):
                     blocking_pair_3c = True
 
